@@ -67,7 +67,14 @@ def partial_eval(t, facts: dict):
         if v[0] == "c" and isinstance(v[1], bool):
             return ("c", not v[1])
         return (tag, t[1], v)
-    return tuple(partial_eval(x, facts) if isinstance(x, tuple) else x for x in t)
+    out = tuple(partial_eval(x, facts) if isinstance(x, tuple) else x for x in t)
+    # a record that a join had hidden from the evaluator: Rec(a, b)#0 is a
+    if out[0] == "proj" and isinstance(out[2], int) and out[1][0] == "call" \
+            and out[1][1][0] == "g" and not out[1][3] and out[2] < len(out[1][2]) \
+            and out[1][1][1].rsplit(".", 1)[-1].lstrip("_")[:1].isupper() \
+            and not any(a[0] == "star" for a in out[1][2]):
+        return out[1][2][out[2]]
+    return out
 
 
 def check(ctx):
